@@ -362,3 +362,25 @@ func resolvedVersion(g *resolve.Graph, name string) (ver string, ok bool, ambigu
 	}
 	return "", false, len(seen) > 1
 }
+
+// hardInvolved: some requirement on the updated package, in the universe or the one being rewritten, is a
+// Maven hard requirement (a range); class predicate of the Maven soft-version-vs-hard-range findings.
+func (s *Scenario) hardInvolved(u Upd) bool {
+	isRange := func(r string) bool { return strings.HasPrefix(r, "[") || strings.HasPrefix(r, "(") }
+	if s.Eco != "Maven" {
+		return false
+	}
+	if isRange(u.From) {
+		return true
+	}
+	for _, p := range s.Universe {
+		for _, v := range p.Versions {
+			for _, d := range v.Deps {
+				if d[0] == u.Name && isRange(d[1]) {
+					return true
+				}
+			}
+		}
+	}
+	return false
+}
